@@ -33,7 +33,26 @@ def run_part(run, fails, stats):
             continue
         now = 10_000_000
         sessions = []   # (index, ctx, candidates texts, used)
+        spec = {}       # the property's own bookkeeping: key -> [count, time of the latest confirmation]
         try:
+            if hi == 0:
+                # directed: a count refreshed two days ago must survive a confirmation four days after it was first learned
+                day = 86_400_000
+                for dt, inp in ((0, "くるまで"), (2 * day, "くるまで"), (4 * day, "やまだ")):
+                    res = r.conv("normal", inp)
+                    if res[0] == "ok" and res[1]["candidates"]:
+                        r.confirm(len(r.sids) - 1, "0", now + dt)
+                        stats["confirmations"] += 1
+                d = r.srv.dump()
+                got = {w: n for _, w, n, _ in (d or {"frequencies": []})["frequencies"]}
+                if got.get("車") != 2:
+                    fails.append(("dropped-fresh", {"kind": "dropped-fresh"},
+                                  {"history": "confirm 車 at t0 and t0+2d, confirm 山田 at t0+4d", "expected_count_of_車": 2,
+                                   "frequencies": d and d["frequencies"]}))
+                r.dump()
+                now += 4 * day
+                for _, w, n, last in (d or {"frequencies": []})["frequencies"]:
+                    pass
             for step in range(30 if thorough else 14):
                 k = rng.below(10)
                 before = r.srv.dump()
@@ -66,6 +85,16 @@ def run_part(run, fails, stats):
                     other = [key for key in changed if key not in ups and key not in drops]
                     w = {"history_step": step, "session_context": s[1], "candidate_id": cid, "candidates": [c["candidate"] for c in s[2]],
                          "now": now, "before": before["frequencies"], "after": after["frequencies"]}
+                    # independent bookkeeping of the time of the latest confirmation per key
+                    for key in list(spec):
+                        if key not in b:
+                            del spec[key]
+                    if len(ups) == 1:
+                        spec[ups[0]] = now
+                    for key in drops:
+                        last_use = spec.get(key, b[key][1])
+                        if not (now - last_use > EXP):
+                            fails.append(("dropped-fresh", {"kind": "dropped-fresh"}, dict(w, dropped=list(key), last_confirmed_at=last_use)))
                     if other or len(ups) > 1:
                         fails.append(("other-count-changed", {"kind": "other-count-changed"}, w))
                     if not valid and (ups or drops):
